@@ -79,12 +79,22 @@ def main():
         print('UNDECIDED property=%s reason=no-unit-serves-this-property' % prop)
         sys.exit(2)
     findings = load_json('known_findings.json', dict(findings=[]))['findings']
-    open_findings = {f['clause_id']: f for f in findings if f.get('status') == 'open' and f['property'] == prop}
+    # a finding with `suppress_clause` silences its whole clause (not used: it would hide other violations of the clause);
+    # a finding with `witness_input` is a REGION finding: the contract clause excludes a syntactically described region,
+    # stays an obligation everywhere else, and the witness is re-run against the real code on every run.
+    open_findings = {f['clause_id']: f for f in findings if f.get('status') == 'open' and f['property'] == prop and f.get('suppress_clause')}
+    wit_findings = [f for f in findings if f.get('status') == 'open' and f['property'] == prop and f.get('witness_input') is not None and f.get('unit') in mine]
     results = []
-    with concurrent.futures.ThreadPoolExecutor(max_workers=min(12, len(mine))) as ex:
+    wit_results = {}
+    with concurrent.futures.ThreadPoolExecutor(max_workers=min(12, len(mine) + 2)) as ex:
         futs = {ex.submit(vx.run_unit, u, tier, repo, None, seed): u for u in mine}
+        wfuts = {}
+        for u in sorted(set(f['unit'] for f in wit_findings)):
+            wfuts[ex.submit(vx.run_witnesses, u, repo, [f for f in wit_findings if f['unit'] == u], seed)] = u
         for f in concurrent.futures.as_completed(futs):
             results.append(f.result())
+        for f in concurrent.futures.as_completed(wfuts):
+            wit_results.update(f.result())
     results.sort(key=lambda r: r['unit'])
 
     # thorough: stability re-runs and self-test
@@ -157,6 +167,18 @@ def main():
         ext_auto += r.get('external_auto', [])
 
     # ---- output
+    wit_notes = []
+    for f in wit_findings:
+        wr = wit_results.get(f['id'], {})
+        if wr.get('found'):
+            known_lines.append('KNOWN-FINDING: property=%s %s %s input=%s observed=%s' % (
+                prop, f['id'], f.get('what', ''), json.dumps(f['witness_input']), json.dumps(wr.get('observed'))))
+        elif 'error' in wr:
+            known_lines.append('KNOWN-FINDING: property=%s %s %s (witness not re-run: %s)' % (prop, f['id'], f.get('what', ''), wr['error'][:200]))
+        else:
+            wit_notes.append('known finding %s no longer reproduces on this tree (input %s); its region is still excluded from clause %s'
+                             % (f['id'], json.dumps(f['witness_input']), f['clause_id']))
+            print('NOTE property=%s %s' % (prop, wit_notes[-1]))
     for l in known_lines:
         print(l)
     rc = 0
@@ -213,7 +235,7 @@ def main():
                             bounded=[],
                             auto_external_body=ext_auto,
                             not_covered=not_cov,
-                            known_findings=known_lines,
+                            known_findings=known_lines, known_finding_notes=wit_notes,
                             undecided=[dict(unit=u, notes=[n[:400] for n in ns]) for u, ns in undecided],
                             explanation='obligations = contract clauses (requires/ensures/invariant/decreases/hint asserts/lemmas) attributed to %s '
                                         'plus one body obligation per real function under contract; discharged = those Verus proved on this run. '
